@@ -688,6 +688,8 @@ theorem JI_step {j : JState} {seen off : List Nat} (h : JI j seen off) (e : Ev)
     split
     · rename_i hc; rw [if_pos hc] at hacc; exact absurd hacc (flagV_bad_ne rfl)
     · exact ⟨h.nodup, h.hseen, h.hoff, h.exp⟩
+  | coBegin o => exact ⟨rfl, rfl, h⟩
+  | coEnd o => exact ⟨rfl, rfl, h⟩
   | passLimit =>
     refine ⟨rfl, rfl, ?_⟩
     simp only [judge1] at hacc ⊢
@@ -816,6 +818,8 @@ theorem judge1_bad (j : JState) (e : Ev) : (judge1 j e).bad = j.bad ∨ ∃ v, (
   | rp o => exact Or.inl rfl
   | rpNone o => exact Or.inl rfl
   | rpDone o => simp only [judge1]; split <;> first | exact Or.inl rfl | exact Or.inr ⟨_, rfl⟩
+  | coBegin o => exact Or.inl rfl
+  | coEnd o => exact Or.inl rfl
   | passLimit => simp only [judge1]; split <;> first | exact Or.inl rfl | exact Or.inr ⟨_, rfl⟩
   | cgAfter v =>
     cases v with
@@ -1107,6 +1111,8 @@ theorem quiet_step (j : JState) (e : Ev) (hq : quietExp j.expect = true) (hnt : 
   | rp o => exact hq
   | rpNone o => exact hq
   | rpDone o => simp only [judge1]; split <;> exact hq
+  | coBegin o => exact hq
+  | coEnd o => exact hq
   | passLimit => simp only [judge1]; split <;> exact hq
   | cgAfter v => cases v <;> exact hq
   | junk s => exact hq
